@@ -826,6 +826,8 @@ class AttrSpec:
         (255, 255, 0, 205, 205, 255)
         >>> AttrSpec('default', 'g92').get_rgb_values()
         (None, None, None, 238, 238, 238)
+        >>> AttrSpec('dark red', '#123456', colors=2**24).get_rgb_values()
+        (205, 0, 0, 18, 52, 86)
         """
         if not (self.foreground_basic or self.foreground_high or self.foreground_true):
             vals = (None, None, None)
@@ -833,7 +835,7 @@ class AttrSpec:
             if self.foreground_number >= 88:
                 raise ValueError(f"Invalid AttrSpec _value: {self.foreground_number!r}")
             vals = _COLOR_VALUES_88[self.foreground_number]
-        elif self.colors == 2**24:
+        elif self.foreground_true:
             h = f"{self.foreground_number:06x}"
             vals = tuple(int(x, 16) for x in (h[0:2], h[2:4], h[4:6]))
         else:
@@ -845,7 +847,7 @@ class AttrSpec:
             if self.background_number >= 88:
                 raise ValueError(f"Invalid AttrSpec _value: {self.background_number!r}")
             return vals + _COLOR_VALUES_88[self.background_number]
-        if self.colors == 2**24:
+        if self.background_true:
             h = f"{self.background_number:06x}"
             return vals + tuple(int(x, 16) for x in (h[0:2], h[2:4], h[4:6]))
 
